@@ -1,4 +1,19 @@
+import ZCV.Lemmas.Misc
 import ZCV.Model.Matcher
 namespace ZCV.Props.C15
 open ZCV ZCV.Cfg
+
+/-- indentation and trailing whitespace (any characters `str.isspace` accepts) never change how a line is read -/
+theorem C15_strip_invariant (ws l ws' : Str) (h1 : ws.all pySpace = true) (h2 : ws'.all pySpace = true) :
+    Grammar.classify (ws ++ l ++ ws') = Grammar.classify l := classify_pad ws l ws' h1 h2
+
+theorem C15_strip_invariant_model (ws l ws' : Str) (h1 : ws.all pySpace = true) (h2 : ws'.all pySpace = true) :
+    lineShape (strip (ws ++ l ++ ws')) = lineShape (strip l) := by rw [strip_pad ws l ws' h1 h2]
+
+/-- `<t/>` does exactly what `<t>` followed by `</t>` does, for every context the parser can drive -/
+theorem C15_empty_form_equiv {σ} (c : PCtx σ) (url : Option Str) (line line2 : Nat) (ty : Str) (nm : Option Str) (st st' : PS σ) :
+    openSection c url line ty nm true st = .ok st' ↔
+      ∃ st1, openSection c url line ty nm false st = .ok st1 ∧ closeSection c url line2 ty st1 = .ok st' :=
+  empty_form_equiv c url line line2 ty nm st st'
+
 end ZCV.Props.C15
